@@ -169,6 +169,11 @@ impl PrimitiveFlagsPair {
     pub fn set_flags(&self, new_value: VariableFlags) -> VariableFlags {
         std::mem::replace(&mut self.0.borrow_mut().1, new_value)
     }
+
+    /// Whether both are the same variable (one shared cell), not merely two variables with equal contents.
+    pub fn is_same_cell(&self, other: &Self) -> bool {
+        Gc::ptr_eq(&self.0, &other.0)
+    }
 }
 
 impl PartialEq for PrimitiveFlagsPair {
@@ -316,6 +321,17 @@ impl VariableMapping {
 
     pub fn len(&self) -> usize {
         self.0.len()
+    }
+
+    /// Whether both map the same names to the same variables (shared cells).
+    pub fn has_same_cells(&self, other: &Self) -> bool {
+        self.0.len() == other.0.len()
+            && self.0.iter().all(|(name, cell)| {
+                other
+                    .0
+                    .get(name)
+                    .is_some_and(|other_cell| cell.is_same_cell(other_cell))
+            })
     }
 }
 
